@@ -310,16 +310,25 @@ pub fn order_key(entry_len: usize, idx: u64) -> u64 {
     ((entry_len as u64) << 40) | (idx & ((1 << 40) - 1))
 }
 
-/// Watches the CPU time the main thread spends inside one case; ends the process with `H idx ms`
-/// when it exceeds the limit (a deterministic spin burns CPU, a loaded machine only burns wall-clock).
-fn spawn_cpu_monitor(limit_ms: u64) {
+/// CPU clock of the thread that currently runs cases (runner threads change after a refusal)
+static RUNNER_CLOCK: std::sync::atomic::AtomicI32 = std::sync::atomic::AtomicI32::new(-1);
+
+fn register_runner_clock() {
     let mut cid: libc::clockid_t = 0;
     if unsafe { libc::pthread_getcpuclockid(libc::pthread_self(), &mut cid) } != 0 {
         eprintln!("MACHINERY: pthread_getcpuclockid failed");
         std::process::exit(2);
     }
+    RUNNER_CLOCK.store(cid, Ordering::Release);
+}
+
+/// Watches the CPU time the runner thread spends inside one case; ends the process with `H idx ms`
+/// when it exceeds the limit (a deterministic spin burns CPU, a loaded machine only burns wall-clock).
+fn spawn_cpu_monitor(limit_ms: u64) {
+    register_runner_clock();
     std::thread::spawn(move || {
         let cpu_ms = || {
+            let cid = RUNNER_CLOCK.load(Ordering::Acquire);
             let mut ts = libc::timespec { tv_sec: 0, tv_nsec: 0 };
             unsafe { libc::clock_gettime(cid, &mut ts) };
             ts.tv_sec as u64 * 1000 + ts.tv_nsec as u64 / 1_000_000
@@ -343,13 +352,14 @@ fn spawn_cpu_monitor(limit_ms: u64) {
     });
 }
 
-/// results of the block in progress: (block start, accumulator). Locked by the worker's main thread
-/// only between cases, so the refusal path (main thread inside the allocator during a case) and the
-/// CPU monitor thread can take it to flush a partial block before ending the process.
+/// results of the block in progress: (block start, accumulator). Locked by the runner thread only
+/// between cases, so the refusal path (runner inside the allocator during a case) and the CPU monitor
+/// thread can take it to flush a partial block.
 static ACC: Mutex<Option<(u64, BlockAcc)>> = Mutex::new(None);
 
 /// Prints the results of the cases completed so far in the current block as an `S` line ending at
-/// `idx` (exclusive). Returns false (and prints nothing) if `idx` is no longer the case in flight.
+/// `idx` (exclusive) and keeps the lock forever (the process is about to end). Returns false (and
+/// prints nothing) if `idx` is no longer the case in flight.
 pub fn flush_partial(idx: u64) -> bool {
     let mut g = match ACC.lock() {
         Ok(g) => g,
@@ -363,21 +373,81 @@ pub fn flush_partial(idx: u64) -> bool {
             println!("S {}", acc.to_json(lo, idx));
         }
     }
-    // keep the lock: the process is about to end and the main thread must not record anything more
     std::mem::forget(g);
     true
 }
 
-fn worker(ctx: &Ctx, lo: u64, hi: u64, skip: &BTreeSet<u64>, cpu_limit_ms: u64) -> ! {
-    spawn_cpu_monitor(cpu_limit_ms);
-    let plan = plan(!ctx.quick());
-    let pristine = pristine_of(&plan);
-    let tier = if ctx.quick() { "quick" } else { "thorough" };
-    let hi = hi.min(plan.total);
-    *ACC.lock().unwrap() = Some((lo, BlockAcc::default()));
+struct Shared {
+    plan: Plan,
+    pristine: Pristine,
+    hi: u64,
+    skip: BTreeSet<u64>,
+    tier: &'static str,
+}
+static SHARED: std::sync::OnceLock<Shared> = std::sync::OnceLock::new();
+/// runner threads parked inside a refused allocation (their memory and stack stay allocated)
+static PARKED: AtomicU64 = AtomicU64::new(0);
+const MAX_PARKED: u64 = 100;
+const RUNNER_STACK: usize = 8 << 20;
+pub const VOLUNTARY_EXIT: i32 = 88;
+
+/// Called by the allocation meter (on the runner thread, inside the allocator, meter disarmed) when a
+/// request is refused during case `idx`. The refusing thread can neither return (the allocation must
+/// not succeed) nor unwind (an allocator must not), so it reports the refusal, hands the remaining
+/// cases to a fresh runner thread and parks forever. After `MAX_PARKED` parked threads the worker
+/// flushes its block and exits so that the parent starts a fresh process.
+pub fn on_refusal(idx: u64, requested: usize, held: isize, token: &str) -> ! {
+    println!("A {idx} {requested} {held} {token}");
+    let parked = PARKED.fetch_add(1, Ordering::Relaxed) + 1;
+    if SHARED.get().is_none() || parked >= MAX_PARKED {
+        // single-case modes (resolve / replay) or too many parked threads: leave the process
+        if SHARED.get().is_some() {
+            // the refused case is accounted for by the parent: commit the block up to and including it
+            let mut g = match ACC.lock() {
+                Ok(g) => g,
+                Err(p) => p.into_inner(),
+            };
+            if let Some((lo, acc)) = g.take() {
+                println!("S {}", acc.to_json(lo, idx + 1));
+            }
+            std::mem::forget(g);
+            unsafe { libc::_exit(VOLUNTARY_EXIT) }
+        }
+        unsafe { libc::_exit(meter::REFUSE_EXIT) }
+    }
+    meter::CASE_IDX.store(u64::MAX, Ordering::Release);
+    let next = idx + 1;
+    let spawned = std::thread::Builder::new().stack_size(RUNNER_STACK).spawn(move || runner(next));
+    if spawned.is_err() {
+        eprintln!("MACHINERY: cannot spawn a runner thread");
+        unsafe { libc::_exit(2) }
+    }
+    loop {
+        std::thread::park();
+    }
+}
+
+fn end_of_block(idx: u64, hi: u64) {
+    if (idx + 1) % BLOCK == 0 || idx + 1 == hi {
+        let mut g = ACC.lock().unwrap();
+        let (blo, acc) = g.take().unwrap();
+        println!("S {}", acc.to_json(blo, idx + 1));
+        *g = Some((idx + 1, BlockAcc::default()));
+    }
+}
+
+/// Runs the cases `start..hi` on the current thread.
+fn runner(start: u64) -> ! {
+    register_runner_clock();
+    let sh = SHARED.get().expect("shared worker state");
+    let plan = &sh.plan;
+    // a refused case ends its block bookkeeping here (the refusing thread could not do it)
+    if start > 0 && start <= sh.hi && PARKED.load(Ordering::Relaxed) > 0 {
+        end_of_block(start - 1, sh.hi);
+    }
     let mut cached: Option<(usize, u64, Mutated, usize)> = None;
-    for idx in lo..hi {
-        if !skip.contains(&idx) {
+    for idx in start..sh.hi {
+        if !sh.skip.contains(&idx) {
             let (j, k, r) = plan.locate(idx);
             if cached.as_ref().map(|c| (c.0, c.1)) != Some((j, k)) {
                 let (m, ei) = plan.input(j, k);
@@ -389,7 +459,7 @@ fn worker(ctx: &Ctx, lo: u64, hi: u64, skip: &BTreeSet<u64>, cpu_limit_ms: u64) 
             let e = &plan.corpus[*ei];
             println!("@ {idx}");
             meter::CASE_IDX.store(idx, Ordering::Release);
-            let ev = evaluate(rd, e, &m.bytes, &m.segs, pristine.get(&(*ei, rd)));
+            let ev = evaluate(rd, e, &m.bytes, &m.segs, sh.pristine.get(&(*ei, rd)));
             meter::CASE_IDX.store(u64::MAX, Ordering::Release);
             let nontrivial = m.bytes != e.bytes;
             let mut g = ACC.lock().unwrap();
@@ -400,7 +470,7 @@ fn worker(ctx: &Ctx, lo: u64, hi: u64, skip: &BTreeSet<u64>, cpu_limit_ms: u64) 
             *acc.out.entry(format!("{}|{}", rd.name(), ev.class)).or_default() += 1;
             acc.peak = acc.peak.max(ev.peak);
             if idx % 100_003 == 0 && acc.samples.len() < 2 {
-                let mut c = plan.case_json(idx, tier);
+                let mut c = plan.case_json(idx, sh.tier);
                 c["outcome"] = json!(ev.class);
                 c["peak_alloc"] = json!(ev.peak);
                 acc.samples.push((job.sub.clone(), c));
@@ -411,22 +481,56 @@ fn worker(ctx: &Ctx, lo: u64, hi: u64, skip: &BTreeSet<u64>, cpu_limit_ms: u64) 
                     Some(v) => {
                         v.0 += 1;
                         if order < v.1 {
-                            *v = (v.0, order, msg, plan.case_json(idx, tier));
+                            *v = (v.0, order, msg, plan.case_json(idx, sh.tier));
                         }
                     }
                     None => {
-                        acc.viol.insert(fp, (1, order, msg, plan.case_json(idx, tier)));
+                        acc.viol.insert(fp, (1, order, msg, plan.case_json(idx, sh.tier)));
                     }
                 }
             }
         }
-        if (idx + 1) % BLOCK == 0 || idx + 1 == hi {
-            let mut g = ACC.lock().unwrap();
-            let (blo, acc) = g.take().unwrap();
-            println!("S {}", acc.to_json(blo, idx + 1));
-            *g = Some((idx + 1, BlockAcc::default()));
+        end_of_block(idx, sh.hi);
+    }
+    println!("DONE");
+    std::process::exit(0);
+}
+
+fn worker(ctx: &Ctx, lo: u64, hi: u64, skip: &BTreeSet<u64>, cpu_limit_ms: u64) -> ! {
+    let plan = plan(!ctx.quick());
+    let pristine = pristine_of(&plan);
+    let hi = hi.min(plan.total);
+    *ACC.lock().unwrap() = Some((lo, BlockAcc::default()));
+    if !ctx.has_flag("--resolve") {
+        let _ = SHARED.set(Shared { plan, pristine, hi, skip: skip.clone(), tier: if ctx.quick() { "quick" } else { "thorough" } });
+        // the first runner gets the same stack size as its successors
+        let h = std::thread::Builder::new().stack_size(RUNNER_STACK).spawn(move || {
+            spawn_cpu_monitor(cpu_limit_ms);
+            runner(lo)
+        });
+        match h {
+            Ok(h) => {
+                let _ = h.join();
+                // the first runner parked after a refusal: a successor finishes the range and exits
+                loop {
+                    std::thread::park();
+                }
+            }
+            Err(_) => {
+                eprintln!("MACHINERY: cannot spawn a runner thread");
+                std::process::exit(2);
+            }
         }
     }
+    // resolve mode: one case, symbolised refusal, exits inside the meter
+    spawn_cpu_monitor(cpu_limit_ms);
+    let (j, k, r) = plan.locate(lo);
+    let (m, ei) = plan.input(j, k);
+    let rd = plan.jobs[j].readers[r];
+    println!("@ {lo}");
+    meter::CASE_IDX.store(lo, Ordering::Release);
+    let ev = evaluate(rd, &plan.corpus[ei], &m.bytes, &m.segs, None);
+    println!("R {}", json!({"class": ev.class}));
     println!("DONE");
     std::process::exit(0);
 }
@@ -485,9 +589,10 @@ struct UnitResult {
     suspects: Vec<u64>,
 }
 
-/// Runs one worker over [lo, hi) with `skip`; returns committed stats, the committed upper bound and how
-/// the worker ended for the case in flight (if it did not complete).
-fn run_once(ctx: &Ctx, exe: &std::path::Path, lo: u64, hi: u64, skip: &BTreeSet<u64>, cpu_limit_ms: u64, peak: &mut u64) -> (Stats, u64, Option<(u64, Abnormal)>, bool) {
+/// Runs one worker over [lo, hi) with `skip`; returns committed stats, the committed upper bound, the
+/// refusals inside committed blocks and how the worker ended for the case in flight (if it did not
+/// complete).
+fn run_once(ctx: &Ctx, exe: &std::path::Path, lo: u64, hi: u64, skip: &BTreeSet<u64>, cpu_limit_ms: u64, peak: &mut u64) -> Once {
     let tier = if ctx.quick() { "quick" } else { "thorough" };
     let mut args: Vec<String> = vec!["C08".into(), "--tier".into(), tier.into(), "--worker".into(), lo.to_string(), hi.to_string(), "--cpu-limit".into(), cpu_limit_ms.to_string()];
     let sk: Vec<String> = skip.iter().filter(|&&s| s >= lo && s < hi).map(|s| s.to_string()).collect();
@@ -497,7 +602,9 @@ fn run_once(ctx: &Ctx, exe: &std::path::Path, lo: u64, hi: u64, skip: &BTreeSet<
     }
     let mut committed = lo;
     let mut st = Stats::new();
-    let mut last_alloc: Option<(u64, u64, i64, String)> = None;
+    // refusals reported since the last committed block (committed together with it)
+    let mut pending: Vec<(u64, Abnormal)> = vec![];
+    let mut allocs: Vec<(u64, Abnormal)> = vec![];
     let mut last_cpu: Option<(u64, u64)> = None;
     let mut garbled = false;
     let end = run_worker(exe, &args, Some(RLIMIT_AS), WALL_WATCHDOG, |l| {
@@ -506,6 +613,9 @@ fn run_once(ctx: &Ctx, exe: &std::path::Path, lo: u64, hi: u64, skip: &BTreeSet<
                 Ok(v) => {
                     merge_block(&mut st, &v, peak);
                     committed = v["hi"].as_u64().unwrap_or(committed);
+                    let (done, rest): (Vec<_>, Vec<_>) = std::mem::take(&mut pending).into_iter().partition(|(i, _)| *i < committed);
+                    allocs.extend(done);
+                    pending = rest;
                 }
                 Err(_) => garbled = true,
             }
@@ -514,41 +624,61 @@ fn run_once(ctx: &Ctx, exe: &std::path::Path, lo: u64, hi: u64, skip: &BTreeSet<
             let idx = it.next().and_then(|x| x.parse().ok()).unwrap_or(u64::MAX);
             let req = it.next().and_then(|x| x.parse().ok()).unwrap_or(0);
             let held = it.next().and_then(|x| x.parse().ok()).unwrap_or(0);
-            let site = it.next().unwrap_or("unknown").trim().to_string();
-            last_alloc = Some((idx, req, held, site));
+            let token = it.next().unwrap_or("unknown").trim().to_string();
+            pending.push((idx, Abnormal::Alloc { req, held, token }));
         } else if let Some(h) = l.strip_prefix("H ") {
             let mut it = h.split(' ');
             let idx = it.next().and_then(|x| x.parse().ok()).unwrap_or(u64::MAX);
             let ms = it.next().and_then(|x| x.parse().ok()).unwrap_or(0);
             last_cpu = Some((idx, ms));
-        } else if !l.is_empty() {
+        } else if !l.is_empty() && !l.starts_with("R ") {
             garbled = true;
         }
     });
-    match end {
-        WorkerEnd::Completed => (st, hi, None, garbled),
+    let (last, glitch) = match end {
+        WorkerEnd::Completed => {
+            committed = hi;
+            (None, garbled)
+        }
         WorkerEnd::Hung { in_flight } => {
             let idx = in_flight.filter(|&i| i >= committed && i < hi);
-            (st, committed, idx.map(|i| (i, Abnormal::WallLimit)), garbled || idx.is_none())
+            (idx.map(|i| (i, Abnormal::WallLimit)), garbled || idx.is_none())
         }
         WorkerEnd::Died { desc, in_flight } => {
             let idx = in_flight.filter(|&i| i >= committed && i < hi);
+            let voluntary = desc.contains(&format!("code=Some({})", VOLUNTARY_EXIT));
             let refused = desc.contains(&format!("code=Some({})", meter::REFUSE_EXIT));
             let cpu = desc.contains(&format!("code=Some({})", CPU_EXIT));
-            let ab = match idx {
-                None => None,
-                Some(i) => match (&last_alloc, &last_cpu) {
-                    (Some((ai, req, held, tok)), _) if refused && *ai == i => Some((i, Abnormal::Alloc { req: *req, held: *held, token: tok.clone() })),
-                    (_, Some((ci, ms))) if cpu && *ci == i => Some((i, Abnormal::CpuLimit { ms: *ms })),
-                    // exit code of the meter / monitor without a matching line: a race with the next case; retry
-                    _ if refused || cpu => None,
-                    _ => Some((i, Abnormal::Died { desc })),
-                },
-            };
-            let g = ab.is_none();
-            (st, committed, ab, garbled || g)
+            if voluntary {
+                (None, garbled)
+            } else {
+                let ab = match idx {
+                    None => None,
+                    Some(i) => match &last_cpu {
+                        Some((ci, ms)) if cpu && *ci == i => Some((i, Abnormal::CpuLimit { ms: *ms })),
+                        // single-case refusal exit (resolve / replay style) with the matching A line
+                        _ if refused => pending.iter().find(|(pi, _)| *pi == i).cloned(),
+                        // exit code of the monitor without a matching line: a race with the next case; retry
+                        _ if cpu => None,
+                        _ => Some((i, Abnormal::Died { desc })),
+                    },
+                };
+                let g = ab.is_none();
+                (ab, garbled || g)
+            }
         }
-    }
+    };
+    Once { st, committed, allocs, last, glitch }
+}
+
+struct Once {
+    st: Stats,
+    committed: u64,
+    /// refused allocations inside committed blocks
+    allocs: Vec<(u64, Abnormal)>,
+    /// how the worker ended for the case in flight, if it did not complete its range
+    last: Option<(u64, Abnormal)>,
+    glitch: bool,
 }
 
 fn abnormal_violation(ctx: &Ctx, plan: &Plan, exe: &std::path::Path, st: &mut Stats, idx: u64, ab: &Abnormal) {
@@ -589,10 +719,15 @@ fn run_unit(ctx: &Ctx, plan: &Plan, exe: &std::path::Path, lo: u64, hi: u64, pea
     let mut restarts = 0u64;
     let mut glitches = 0u64;
     while cur < hi {
-        let (s, committed, ab, glitch) = run_once(ctx, exe, cur, hi, &skip, CPU_LIMIT_SHORT_MS, peak);
-        st.merge(s);
+        let o = run_once(ctx, exe, cur, hi, &skip, CPU_LIMIT_SHORT_MS, peak);
+        st.merge(o.st);
+        let committed = o.committed;
         cur = committed;
-        match ab {
+        for (idx, ab) in &o.allocs {
+            abnormal_violation(ctx, plan, exe, &mut st, *idx, ab);
+        }
+        st.count("refused_allocations", o.allocs.len() as u64);
+        match o.last {
             Some((idx, ab)) => {
                 restarts += 1;
                 if matches!(ab, Abnormal::CpuLimit { .. }) {
@@ -601,19 +736,23 @@ fn run_unit(ctx: &Ctx, plan: &Plan, exe: &std::path::Path, lo: u64, hi: u64, pea
                     abnormal_violation(ctx, plan, exe, &mut st, idx, &ab);
                 }
                 skip.insert(idx);
-                // a refusal / CPU-limit exit flushes the partial block up to the case: continue after it
+                // a CPU-limit exit flushes the partial block up to the case: continue right after it
                 if committed == idx {
                     cur = idx + 1;
                 }
             }
-            None if glitch => {
+            None if o.glitch => {
                 glitches += 1;
                 if glitches > 20 {
                     eprintln!("MACHINERY: worker over [{cur},{hi}) keeps ending without an attributable case");
                     std::process::exit(2);
                 }
             }
-            None => {}
+            None => {
+                if cur < hi {
+                    restarts += 1; // voluntary restart after MAX_PARKED refusals
+                }
+            }
         }
         if restarts > 500_000 {
             eprintln!("MACHINERY: too many worker restarts in [{lo},{hi})");
@@ -665,18 +804,19 @@ fn confirm_suspects(ctx: &Ctx, plan: &Plan, exe: &std::path::Path, mut suspects:
                     }
                     let mut tries = 0;
                     loop {
-                        let (s1, _, ab, glitch) = run_once(ctx, exe, idx, idx + 1, &BTreeSet::new(), CPU_LIMIT_LONG_MS, &mut pk);
+                        let o = run_once(ctx, exe, idx, idx + 1, &BTreeSet::new(), CPU_LIMIT_LONG_MS, &mut pk);
+                        let ab = o.last.or_else(|| o.allocs.first().cloned());
                         match ab {
-                            None if glitch && tries < 5 => {
+                            None if o.glitch && tries < 5 => {
                                 tries += 1;
                                 continue;
                             }
-                            None if glitch => {
+                            None if o.glitch => {
                                 eprintln!("MACHINERY: cannot re-run case {idx}");
                                 std::process::exit(2);
                             }
                             None => {
-                                st.merge(s1);
+                                st.merge(o.st);
                                 completions_in_row += 1;
                                 if completions_in_row >= 3 {
                                     rerun_all = true;
